@@ -885,7 +885,8 @@ inline void CoreSMTSolver::printSMTClause(std::ostream & os, const C& c )
     for (unsigned i = 0; i < c.size(); i++)
     {
         Var v = var(c[i]);
-        if (v <= 1) continue;
+        // the constants true (v == 0) and false (v == 1) are printed like any other literal: omitting them
+        // left unit clauses such as (not false) empty in printed proofs
         os << (sign(c[i]) ? "(not " : "") << theory_handler.getVarName(v) << (sign(c[i]) ? ") " : " ");
     }
     if (c.size( ) > 1) os << ")";
